@@ -498,3 +498,525 @@ Proof.
     unfold out_spec in Hout. destruct Hout as (Hk & _ & _ & Hcase). split; [exact Hk|].
     destruct Hcase as [[Hx _]|(_ & Hx & _)]; eapply nth_error_In; exact Hx.
 Qed.
+
+(* ================================================================== *)
+(* stop is sticky whenever the flags satisfy the stop criterion          *)
+Lemma started_view_id s : w_started s = true -> started_view s = s.
+Proof. destruct s; simpl; intros ->; reflexivity. Qed.
+
+Lemma stop_sticky ch c fuel s :
+  check_stop c (w_exh s) = true -> w_next ch c (S fuel) s = (WStop, started_view s).
+Proof. intros H. unfold w_next. cbn [w_next_loop w_exh]. rewrite H. reflexivity. Qed.
+
+Lemma stop_forever ch c fuel n : forall s,
+  check_stop c (w_exh s) = true -> w_started s = true ->
+  w_run ch c (S fuel) n s = (repeat WStop n, s).
+Proof.
+  induction n as [|n IH]; intros s H Hs; [reflexivity|].
+  cbn [w_run]. rewrite (stop_sticky ch c fuel s H), (started_view_id s Hs), (IH s H Hs). reflexivity.
+Qed.
+
+(* ================================================================== *)
+(* W2 all_exhausted_complete                                           *)
+Lemma hist_inv_no_restart_exh c outs s k :
+  no_restart c -> hist_inv c outs s -> exhk s k = true ->
+  posk s k = length (src_items c k) /\ proj k outs = src_items c k.
+Proof.
+  intros Hnr [_ H] He. destruct (H k) as (n & Hp & Hn & Hf). specialize (Hn Hnr). subst n.
+  destruct (Hf He) as [Hl|Hl]; [lia|]. split; [exact Hl|].
+  rewrite Hp, Hl, firstn_all. reflexivity.
+Qed.
+
+Lemma hist_inv_no_restart_len c outs s k :
+  no_restart c -> hist_inv c outs s -> length (proj k outs) = posk s k.
+Proof.
+  intros Hnr [W H]. destruct (H k) as (n & Hp & Hn & Hf). specialize (Hn Hnr). subst n.
+  rewrite Hp. simpl. rewrite firstn_length. pose proof (wfst_pos_le c s k W). lia.
+Qed.
+
+Theorem all_exhausted_complete_inv ch c fuel outs s s' :
+  w_crit c = AllExhausted -> hist_inv c outs s -> w_next ch c fuel s = (WStop, s') ->
+  forall k, k < nsrc c ->
+    proj k outs = src_items c k /\ posk s' k = length (src_items c k) /\ exhk s' k = true.
+Proof.
+  intros Hc HI E k Hk.
+  pose proof (hist_inv_step _ _ _ _ _ _ _ HI E) as HI'.
+  apply w_next_spec in E; [|apply HI]. destruct E as [(W & _ & _ & _ & _ & Hout) _].
+  simpl in Hout. destruct Hout as (_ & _ & [Hcs | (i & _ & Hne & _)]); [|congruence].
+  unfold check_stop in Hcs. rewrite Hc in Hcs.
+  assert (He : exhk s' k = true).
+  { apply (proj1 (all_true_nth _) Hcs). destruct W as (_ & -> & _). exact Hk. }
+  destruct (hist_inv_no_restart_exh c _ s' k (or_introl Hc) HI' He) as [Hl Hp].
+  rewrite proj_app in Hp. simpl in Hp. rewrite app_nil_r in Hp. auto.
+Qed.
+
+Theorem all_exhausted_complete ch c fuel fuel' n so outs s s' :
+  w_crit c = AllExhausted ->
+  w_run ch c fuel n (w_reset_fresh c so) = (outs, s) ->
+  w_next ch c fuel' s = (WStop, s') ->
+  forall k, k < nsrc c -> proj k outs = src_items c k.
+Proof.
+  intros Hc E E' k Hk. apply hist_inv_from_fresh in E.
+  apply (all_exhausted_complete_inv _ _ _ _ _ _ Hc E E' k Hk).
+Qed.
+
+Theorem all_exhausted_no_early_stop_inv ch c fuel outs s :
+  w_crit c = AllExhausted -> hist_inv c outs s ->
+  (exists k, k < nsrc c /\ posk s k < length (src_items c k)) ->
+  fst (w_next ch c fuel s) <> WStop.
+Proof.
+  intros Hc HI (k & Hk & Hlt) Hst.
+  destruct (w_next ch c fuel s) as [o s'] eqn:E. simpl in Hst. subst o.
+  destruct (all_exhausted_complete_inv _ _ _ _ _ _ Hc HI E k Hk) as (Hp & _).
+  pose proof (hist_inv_no_restart_len c outs s k (or_introl Hc) HI) as Hl.
+  rewrite Hp in Hl. lia.
+Qed.
+
+Theorem all_exhausted_no_early_stop ch c fuel fuel' n so outs s :
+  w_crit c = AllExhausted ->
+  w_run ch c fuel n (w_reset_fresh c so) = (outs, s) ->
+  (exists k, k < nsrc c /\ length (proj k outs) < length (src_items c k)) ->
+  fst (w_next ch c fuel' s) <> WStop.
+Proof.
+  intros Hc E (k & Hk & Hlt). apply hist_inv_from_fresh in E.
+  apply (all_exhausted_no_early_stop_inv _ _ _ _ _ Hc E).
+  exists k. split; [exact Hk|].
+  rewrite <- (hist_inv_no_restart_len c outs s k (or_introl Hc) E). exact Hlt.
+Qed.
+
+Theorem all_exhausted_stop_sticky ch c fuel fuel' outs s s' :
+  w_crit c = AllExhausted -> hist_inv c outs s -> w_next ch c fuel s = (WStop, s') ->
+  forall n, w_run ch c (S fuel') n s' = (repeat WStop n, s').
+Proof.
+  intros Hc HI E n. apply w_next_spec in E; [|apply HI].
+  destruct E as [(_ & _ & _ & _ & _ & Hout) Hs]. simpl in Hout.
+  destruct Hout as (_ & _ & [Hcs | (i & _ & Hne & _)]); [|congruence].
+  apply stop_forever; assumption.
+Qed.
+
+(* ================================================================== *)
+(* W3 first_exhausted_exact                                            *)
+Theorem first_exhausted_exact_inv ch c fuel outs s s' :
+  w_crit c = FirstExhausted -> ch_in_range ch c (w_epoch s) ->
+  hist_inv c outs s -> w_next ch c fuel s = (WStop, s') ->
+  (exists k, k < nsrc c /\ exhk s' k = true /\ posk s' k = length (src_items c k) /\
+             proj k outs = src_items c k) /\
+  (forall j, prefix (proj j outs) (src_items c j)) /\
+  (forall fuel' n, w_run ch c (S fuel') n s' = (repeat WStop n, s')).
+Proof.
+  intros Hc Hr HI E.
+  pose proof (hist_inv_step _ _ _ _ _ _ _ HI E) as HI'.
+  apply w_next_spec in E; [|apply HI]. destruct E as [(W & _ & _ & _ & _ & Hout) Hs].
+  simpl in Hout. destruct Hout as (_ & _ & [Hcs | (i & _ & _ & Hoob)]).
+  2:{ specialize (Hoob Hc). specialize (Hr i). lia. }
+  split; [|split].
+  - assert (Hex : exists k, k < nsrc c /\ exhk s' k = true).
+    { unfold check_stop in Hcs. rewrite Hc in Hcs. apply orb_true_iff in Hcs. destruct Hcs as [Hall|Hany].
+      - exists 0. pose proof (Hr 0) as H0. split; [lia|].
+        apply (proj1 (all_true_nth _) Hall). destruct W as (_ & -> & _). lia.
+      - apply any_true_nth in Hany. destruct Hany as (k & Hk & He). exists k.
+        destruct W as (_ & <- & _). auto. }
+    destruct Hex as (k & Hk & He). exists k.
+    destruct (hist_inv_no_restart_exh c _ s' k (or_intror Hc) HI' He) as [Hl Hp].
+    rewrite proj_app in Hp. simpl in Hp. rewrite app_nil_r in Hp. auto.
+  - intros j. apply (per_source_order_no_restart_inv c outs s j (or_intror Hc) HI).
+  - intros fuel' n. apply stop_forever; assumption.
+Qed.
+
+Theorem first_exhausted_exact ch c fuel fuel' n so outs s s' :
+  w_crit c = FirstExhausted -> ch_in_range ch c (w_epoch (w_reset_fresh c so)) ->
+  w_run ch c fuel n (w_reset_fresh c so) = (outs, s) ->
+  w_next ch c fuel' s = (WStop, s') ->
+  (exists k, k < nsrc c /\ exhk s' k = true /\ posk s' k = length (src_items c k) /\
+             proj k outs = src_items c k) /\
+  (forall j, prefix (proj j outs) (src_items c j)) /\
+  (forall fuel'' m, w_run ch c (S fuel'') m s' = (repeat WStop m, s')).
+Proof.
+  intros Hc Hr E E'. pose proof (w_run_epoch _ _ _ _ _ _ _ E) as Hep.
+  apply hist_inv_from_fresh in E.
+  apply (first_exhausted_exact_inv ch c fuel' outs s s' Hc); auto. rewrite Hep. exact Hr.
+Qed.
+
+(* out-of-range choices break W3 (and W4, W5): the D12 path raises StopIteration with no flag set *)
+Definition tabch (l : list nat) : nat -> nat -> nat := fun _ i => nth i l 0.
+Example first_exhausted_out_of_range_refuted :
+  let c := {| w_sources := [[1;2];[10]]; w_crit := FirstExhausted; w_batch := 4 |} in
+  let r := w_run (tabch [0;5;1;0]) c 10 3 (w_reset_fresh c None) in
+  fst r = [WItem 0 1; WStop; WItem 1 10] /\ w_exh (snd r) = [false; false].
+Proof. vm_compute. split; reflexivity. Qed.
+
+(* ================================================================== *)
+(* W4 cycle_until_all                                                  *)
+Theorem cycle_until_all_inv ch c fuel outs s s' :
+  w_crit c = CycleUntilAll -> all_nonempty c -> ch_in_range ch c (w_epoch s) ->
+  hist_inv c outs s -> w_next ch c fuel s = (WStop, s') ->
+  forall k, k < nsrc c -> exhk s' k = true /\ length (src_items c k) <= length (proj k outs).
+Proof.
+  intros Hc Hne Hr HI E k Hk.
+  pose proof (hist_inv_step _ _ _ _ _ _ _ HI E) as HI'.
+  apply w_next_spec in E; [|apply HI]. destruct E as [(W & _ & _ & _ & _ & Hout) Hs].
+  simpl in Hout. destruct Hout as (_ & _ & [Hcs | (i & Hnil & _ & _)]).
+  2:{ exfalso. apply (Hne _ (Hr i)). exact Hnil. }
+  unfold check_stop in Hcs. rewrite Hc in Hcs.
+  assert (He : exhk s' k = true).
+  { apply (proj1 (all_true_nth _) Hcs). destruct W as (_ & -> & _). exact Hk. }
+  split; [exact He|].
+  destruct HI' as [_ H]. destruct (H k) as (n & Hp & _ & Hf).
+  rewrite proj_app in Hp. simpl in Hp. rewrite app_nil_r in Hp.
+  rewrite Hp, app_length, cyc_length.
+  destruct (Hf He) as [Hn|Hl].
+  - destruct n; [lia|]. simpl. lia.
+  - rewrite Hl, firstn_all. lia.
+Qed.
+
+Theorem cycle_until_all ch c fuel fuel' n so outs s s' :
+  w_crit c = CycleUntilAll -> all_nonempty c -> ch_in_range ch c (w_epoch (w_reset_fresh c so)) ->
+  w_run ch c fuel n (w_reset_fresh c so) = (outs, s) ->
+  w_next ch c fuel' s = (WStop, s') ->
+  forall k, k < nsrc c -> exhk s' k = true /\ length (src_items c k) <= length (proj k outs).
+Proof.
+  intros Hc Hne Hr E E'. pose proof (w_run_epoch _ _ _ _ _ _ _ E) as Hep.
+  apply hist_inv_from_fresh in E.
+  apply (cycle_until_all_inv ch c fuel' outs s s' Hc Hne); auto. rewrite Hep. exact Hr.
+Qed.
+
+Theorem exhausted_source_restarts_from_first ch c fuel s k x s' :
+  wfst c s -> posk s k = length (src_items c k) -> w_next ch c fuel s = (WItem k x, s') ->
+  nth_error (src_items c k) 0 = Some x /\ posk s' k = 1 /\ exhk s' k = true /\ restart_ok c.
+Proof.
+  intros W Hl E. apply w_next_spec in E; [|exact W]. destruct E as [(_ & _ & _ & _ & _ & Hout) _].
+  unfold out_spec in Hout. destruct Hout as (Hk & _ & _ & [[Hx _]|(_ & Hx & Hp' & He & Hr)]).
+  - apply nth_error_Some_lt in Hx. lia.
+  - repeat split; auto. unfold posk. rewrite Hp'. apply nth_set_nth_eq. destruct W as (-> & _). exact Hk.
+Qed.
+
+(* ================================================================== *)
+(* W5 cycle_forever_no_stop                                            *)
+Theorem cycle_forever_no_stop ch c fuel s :
+  w_crit c = CycleForever -> all_nonempty c -> ch_in_range ch c (w_epoch s) -> wfst c s ->
+  fst (w_next ch c fuel s) <> WStop.
+Proof.
+  intros Hc Hne Hr W Hst. destruct (w_next ch c fuel s) as [o s'] eqn:E. simpl in Hst; subst o.
+  apply w_next_spec in E; [|exact W]. destruct E as [(_ & _ & _ & _ & _ & Hout) _].
+  simpl in Hout. destruct Hout as (_ & _ & [Hcs | (i & Hnil & _ & _)]).
+  - unfold check_stop in Hcs. rewrite Hc in Hcs. discriminate.
+  - apply (Hne _ (Hr i)). exact Hnil.
+Qed.
+
+Theorem cycle_forever_no_stop_run ch c fuel n : forall s outs s',
+  w_crit c = CycleForever -> all_nonempty c -> ch_in_range ch c (w_epoch s) -> wfst c s ->
+  w_run ch c fuel n s = (outs, s') -> ~ In WStop outs.
+Proof.
+  induction n as [|n IH]; intros s outs s' Hc Hne Hr W E Hin.
+  - simpl in E. inversion E; subst. destruct Hin.
+  - cbn [w_run] in E. destruct (w_next ch c fuel s) as [o s1] eqn:E1.
+    destruct (w_run ch c fuel n s1) as [l1 s2] eqn:E2. inversion E; subst.
+    destruct Hin as [->|Hin].
+    + apply (cycle_forever_no_stop ch c fuel s Hc Hne Hr W). rewrite E1. reflexivity.
+    + pose proof (w_next_epoch _ _ _ _ _ _ E1) as Hep.
+      apply w_next_spec in E1; [|exact W]. destruct E1 as [(W1 & _) _].
+      apply (IH s1 l1 s' Hc Hne); auto. rewrite Hep. exact Hr.
+Qed.
+
+Theorem cycle_forever_no_stop_fresh ch c fuel n so outs s' :
+  w_crit c = CycleForever -> all_nonempty c -> ch_in_range ch c (w_epoch (w_reset_fresh c so)) ->
+  w_run ch c fuel n (w_reset_fresh c so) = (outs, s') -> ~ In WStop outs.
+Proof.
+  intros Hc Hne Hr E. eapply cycle_forever_no_stop_run; eauto. apply (hist_inv_fresh c so).
+Qed.
+
+(* with positive fuel every call even returns an item (no WFuel either) *)
+Theorem cycle_forever_always_item ch c fuel s :
+  w_crit c = CycleForever -> all_nonempty c -> ch_in_range ch c (w_epoch s) ->
+  exists k x, fst (w_next ch c (S fuel) s) = WItem k x.
+Proof.
+  intros Hc Hne Hr. unfold w_next. cbn [w_next_loop w_exh w_pos w_epoch w_off w_yielded].
+  unfold check_stop. rewrite Hc. rewrite andb_false_r.
+  set (key := ch (w_epoch s) (w_off s)).
+  destruct (nth_error (src_items c key) (nth key (w_pos s) 0)) as [x|]; [exists key, x; reflexivity|].
+  destruct (nth_error (src_items c key) 0) as [x|] eqn:E0; [exists key, x; reflexivity|].
+  exfalso. apply (Hne key (Hr _)). destruct (src_items c key); [reflexivity|discriminate].
+Qed.
+
+(* D12: an EMPTY source under CycleForever makes next() raise StopIteration *)
+Example cycle_forever_empty_refuted :
+  let c := {| w_sources := [[1;2];[];[20;21;22]]; w_crit := CycleForever; w_batch := 4 |} in
+  fst (w_run (fun _ i => i mod 3) c 20 3 (w_reset_fresh c None)) = [WItem 0 1; WStop; WItem 2 20].
+Proof. vm_compute. reflexivity. Qed.
+
+Example cycle_forever_out_of_range_refuted :
+  let c := {| w_sources := [[1;2];[10]]; w_crit := CycleForever; w_batch := 4 |} in
+  fst (w_run (tabch [0;5;1]) c 20 3 (w_reset_fresh c None)) = [WItem 0 1; WStop; WItem 1 10].
+Proof. vm_compute. reflexivity. Qed.
+
+(* ================================================================== *)
+(* W6 resume_exact                                                     *)
+Lemma off_roundtrip b o :
+  (let '(bn, off) := if (0 <? o) && (o mod b =? 0) then (o / b - 1, b) else (o / b, o mod b) in
+   bn * b + off) = o.
+Proof.
+  destruct ((0 <? o) && (o mod b =? 0)) eqn:E.
+  - apply andb_true_iff in E. destruct E as [Hpos Hmod].
+    apply Nat.ltb_lt in Hpos. apply Nat.eqb_eq in Hmod.
+    pose proof (Nat.div_mod_eq o b) as Hd. rewrite Hmod in Hd.
+    destruct (o / b) as [|q]; [lia|]. simpl. lia.
+  - pose proof (Nat.div_mod_eq o b) as Hd. lia.
+Qed.
+
+Lemma reset_get_state c s :
+  w_reset_state c (w_get_state c s) =
+  {| w_pos := w_pos s; w_exh := w_exh s; w_off := w_off s; w_yielded := w_yielded s;
+     w_epoch := w_epoch s; w_started := false |}.
+Proof.
+  pose proof (off_roundtrip (w_batch c) (w_off s)) as H.
+  unfold w_reset_state, w_get_state.
+  destruct ((0 <? w_off s) && (w_off s mod w_batch c =? 0)); cbn [sd_pos sd_exh sd_batch sd_offset sd_yielded sd_epoch];
+    rewrite H; reflexivity.
+Qed.
+
+Theorem resume_exact ch c fuel s :
+  w_next ch c fuel (w_reset_state c (w_get_state c s)) = w_next ch c fuel s.
+Proof. rewrite reset_get_state. reflexivity. Qed.
+
+Theorem resume_exact_run ch c fuel n s :
+  w_run ch c fuel (S n) (w_reset_state c (w_get_state c s)) = w_run ch c fuel (S n) s.
+Proof. cbn [w_run]. rewrite resume_exact. reflexivity. Qed.
+
+Theorem resume_exact_outputs ch c fuel n s :
+  fst (w_run ch c fuel n (w_reset_state c (w_get_state c s))) = fst (w_run ch c fuel n s).
+Proof. destruct n; [reflexivity|]. rewrite resume_exact_run. reflexivity. Qed.
+
+(* checkpoint taken after any number of calls, restored, then continued = uninterrupted run *)
+Lemma w_run_app ch c fuel a : forall b s,
+  w_run ch c fuel (a + b) s =
+  (fst (w_run ch c fuel a s) ++ fst (w_run ch c fuel b (snd (w_run ch c fuel a s))),
+   snd (w_run ch c fuel b (snd (w_run ch c fuel a s)))).
+Proof.
+  induction a as [|a IH]; intros b s.
+  - simpl. destruct (w_run ch c fuel b s); reflexivity.
+  - change (S a + b) with (S (a + b)). rewrite !w_run_cons, IH. cbn [fst snd]. reflexivity.
+Qed.
+
+Theorem resume_exact_mid_run ch c fuel a b s :
+  let s1 := snd (w_run ch c fuel a s) in
+  fst (w_run ch c fuel a s) ++ fst (w_run ch c fuel b (w_reset_state c (w_get_state c s1)))
+  = fst (w_run ch c fuel (a + b) s).
+Proof. intros s1. rewrite resume_exact_outputs, w_run_app. reflexivity. Qed.
+
+(* ================================================================== *)
+(* W7 choices_deterministic                                            *)
+Lemma w_next_loop_ext ch ch' c fuel : forall s,
+  (forall i, w_off s <= i < w_off s + fuel -> ch (w_epoch s) i = ch' (w_epoch s) i) ->
+  w_next_loop ch c fuel s = w_next_loop ch' c fuel s.
+Proof.
+  induction fuel as [|fuel IH]; intros s H; [reflexivity|].
+  cbn [w_next_loop]. rewrite <- (H (w_off s)) by lia.
+  repeat match goal with
+  | |- (if ?b then _ else _) = _ => destruct b
+  | |- match ?x with _ => _ end = _ => destruct x
+  end; try reflexivity; apply IH; cbn [w_off w_epoch]; intros i Hi; apply H; lia.
+Qed.
+
+Theorem choices_deterministic_window ch ch' c fuel s :
+  (forall i, w_off s <= i < w_off s + fuel -> ch (w_epoch s) i = ch' (w_epoch s) i) ->
+  w_next ch c fuel s = w_next ch' c fuel s.
+Proof. intros H. unfold w_next. apply w_next_loop_ext. exact H. Qed.
+
+Theorem choices_deterministic ch ch' c fuel s :
+  (forall i, ch (w_epoch s) i = ch' (w_epoch s) i) ->
+  w_next ch c fuel s = w_next ch' c fuel s.
+Proof. intros H. apply choices_deterministic_window. intros i _. apply H. Qed.
+
+Theorem choices_deterministic_run ch ch' c fuel n : forall s,
+  (forall i, ch (w_epoch s) i = ch' (w_epoch s) i) ->
+  w_run ch c fuel n s = w_run ch' c fuel n s.
+Proof.
+  induction n as [|n IH]; intros s H; [reflexivity|].
+  cbn [w_run]. rewrite <- (choices_deterministic ch ch' c fuel s H).
+  destruct (w_next ch c fuel s) as [o s1] eqn:E1.
+  rewrite IH; [reflexivity|]. apply w_next_epoch in E1. rewrite E1. exact H.
+Qed.
+
+(* ================================================================== *)
+(* W8 progress                                                         *)
+(* outside AllExhausted the loop body never iterates: one unit of fuel suffices *)
+Theorem no_fuel_needed_unless_all_exhausted ch c fuel s :
+  w_crit c <> AllExhausted -> fst (w_next ch c (S fuel) s) <> WFuel.
+Proof.
+  intros Hc. unfold w_next. cbn [w_next_loop w_exh w_pos w_epoch w_off w_yielded].
+  destruct (w_crit c) eqn:Ec; try congruence; rewrite ?andb_false_r;
+  repeat match goal with
+  | |- fst (if ?b then _ else _) <> _ => destruct b
+  | |- fst (match ?x with _ => _ end) <> _ => destruct x
+  end; cbn [fst]; discriminate.
+Qed.
+
+Fixpoint count_false (l : list bool) : nat :=
+  match l with [] => 0 | b :: r => (if b then 0 else 1) + count_false r end.
+
+(* every source index occurs in every window of B consecutive draws of epoch e *)
+Definition fair (ch : nat -> nat -> nat) (e B n : nat) : Prop :=
+  forall k, k < n -> forall i, exists j, i <= j < i + B /\ ch e j = k.
+
+Lemma count_false_0 l : count_false l = 0 -> all_true l = true.
+Proof. unfold all_true. induction l as [|[|] l IH]; simpl; intros H; auto; discriminate. Qed.
+
+Lemma count_false_pos l : 0 < count_false l -> exists k, k < length l /\ nth k l false = false.
+Proof.
+  induction l as [|[|] l IH]; simpl; intros H; try lia.
+  - destruct (IH H) as (k & Hk & Hn). exists (S k). split; [lia|exact Hn].
+  - exists 0. split; [lia|reflexivity].
+Qed.
+
+Lemma count_false_set l : forall k, k < length l -> nth k l false = false ->
+  count_false l = S (count_false (set_nth l k true)).
+Proof.
+  induction l as [|b l IH]; intros [|k] Hk Hn; simpl in *; try lia.
+  - subst b. reflexivity.
+  - rewrite (IH k) by (lia || exact Hn). destruct b; reflexivity.
+Qed.
+
+Lemma count_false_le l : count_false l <= length l.
+Proof. induction l as [|[|] l IH]; simpl; lia. Qed.
+
+Section Progress.
+  Variables (ch : nat -> nat -> nat) (c : wcfg) (B e : nat).
+  Hypothesis Hc : w_crit c = AllExhausted.
+
+  Lemma ae_check_stop l : check_stop c l = all_true l.
+  Proof. unfold check_stop. rewrite Hc. reflexivity. Qed.
+
+  (* inner induction: an unflagged in-range source is drawn within the next d draws *)
+  Lemma progress_inner m
+    (IHm : forall fuel s, w_epoch s = e -> length (w_exh s) = nsrc c -> count_false (w_exh s) = m ->
+                          fuel > B * m -> fst (w_next_loop ch c fuel s) <> WFuel) :
+    forall d fuel s, w_epoch s = e -> length (w_exh s) = nsrc c -> count_false (w_exh s) = S m ->
+      (exists j, w_off s <= j < w_off s + d /\ ch e j < nsrc c /\ exhk s (ch e j) = false) ->
+      fuel > d + B * m -> fst (w_next_loop ch c fuel s) <> WFuel.
+  Proof.
+    induction d as [|d IHd]; intros fuel s He HL Hcnt (j & Hj & Hjr & Hjf) Hfuel; [lia|].
+    destruct fuel as [|fuel]; [lia|].
+    cbn [w_next_loop]. destruct (check_stop c (w_exh s)); [cbn; discriminate|].
+    rewrite Hc, He. set (key := ch e (w_off s)).
+    destruct (nth key (w_exh s) false) eqn:Ekey; cbn [andb].
+    { (* flagged source drawn: skipped *)
+      apply IHd; cbn [w_exh w_off w_epoch]; auto; [|lia].
+      exists j. repeat split; auto; try lia.
+      destruct (Nat.eq_dec j (w_off s)) as [->|]; [|lia].
+      unfold exhk in Hjf. fold key in Hjf. congruence. }
+    destruct (nth_error (src_items c key) (nth key (w_pos s) 0)); [cbn; discriminate|].
+    cbn [w_exh w_pos w_off w_epoch w_yielded].
+    destruct (check_stop c (set_nth (w_exh s) key true)); [cbn; discriminate|].
+    destruct (Nat.lt_ge_cases key (nsrc c)) as [Hk|Hk].
+    - (* an unflagged source hit its end: one flag fewer *)
+      apply IHm; cbn [w_exh w_epoch]; auto.
+      + rewrite set_nth_length; exact HL.
+      + rewrite (count_false_set (w_exh s) key) in Hcnt by (lia || exact Ekey). lia.
+      + lia.
+    - (* out-of-range draw: nothing changes *)
+      rewrite set_nth_oob by lia.
+      apply IHd; cbn [w_exh w_off w_epoch]; auto; [|lia].
+      exists j. repeat split; auto; try lia.
+      destruct (Nat.eq_dec j (w_off s)) as [->|]; [|lia]. fold key in Hjr. lia.
+  Qed.
+
+  Hypothesis Hfair : fair ch e B (nsrc c).
+
+  Lemma progress_loop : forall m fuel s,
+    w_epoch s = e -> length (w_exh s) = nsrc c -> count_false (w_exh s) = m ->
+    fuel > B * m -> fst (w_next_loop ch c fuel s) <> WFuel.
+  Proof.
+    induction m as [|m IHm]; intros fuel s He HL Hcnt Hfuel.
+    - destruct fuel as [|fuel]; [lia|]. cbn [w_next_loop].
+      rewrite ae_check_stop, (count_false_0 _ Hcnt). cbn; discriminate.
+    - destruct (count_false_pos (w_exh s)) as (k & Hk & Hkf); [lia|].
+      assert (Hk' : k < nsrc c) by lia.
+      destruct (Hfair k Hk' (w_off s)) as (j & Hj & Hjk).
+      apply (progress_inner m IHm B); auto; [|lia].
+      exists j. rewrite Hjk. repeat split; auto; lia.
+  Qed.
+End Progress.
+
+Theorem progress_all_exhausted ch c B fuel s :
+  w_crit c = AllExhausted -> length (w_exh s) = nsrc c ->
+  fair ch (w_epoch s) B (nsrc c) ->
+  fuel > B * count_false (w_exh s) ->
+  fst (w_next ch c fuel s) <> WFuel.
+Proof.
+  intros Hc HL Hfair Hfuel. unfold w_next.
+  apply (progress_loop ch c B (w_epoch s) Hc Hfair (count_false (w_exh s))); auto.
+Qed.
+
+Corollary progress_all_exhausted_nsrc ch c B fuel s :
+  w_crit c = AllExhausted -> wfst c s ->
+  fair ch (w_epoch s) B (nsrc c) ->
+  fuel > B * nsrc c ->
+  fst (w_next ch c fuel s) <> WFuel.
+Proof.
+  intros Hc (_ & HL & _) Hfair Hfuel. apply (progress_all_exhausted ch c B); auto.
+  pose proof (count_false_le (w_exh s)) as Hle. rewrite HL in Hle.
+  assert (B * count_false (w_exh s) <= B * nsrc c) by (apply Nat.mul_le_mono_l; exact Hle). lia.
+Qed.
+
+Theorem progress_cycle_until_all ch c fuel s :
+  w_crit c = CycleUntilAll -> fuel > 0 -> fst (w_next ch c fuel s) <> WFuel.
+Proof.
+  intros Hc Hf. destruct fuel; [lia|]. apply no_fuel_needed_unless_all_exhausted. congruence.
+Qed.
+
+(* the bound is tight-ish: with B = 5, two unflagged sources, fuel 4 < B runs out *)
+Example progress_needs_fuel :
+  let c := {| w_sources := [[1;2;3;4];[];[20]]; w_crit := AllExhausted; w_batch := 4 |} in
+  nth 2 (fst (w_run (fun _ i => nth (i mod 5) [2;7;1;2;0] 0) c 4 3 (w_reset_fresh c None))) WStop = WFuel.
+Proof. vm_compute. reflexivity. Qed.
+
+Example cycle_until_all_out_of_range_refuted :
+  let c := {| w_sources := [[1;2];[10]]; w_crit := CycleUntilAll; w_batch := 4 |} in
+  let r := w_run (tabch [0;5;1]) c 20 2 (w_reset_fresh c None) in
+  fst r = [WItem 0 1; WStop] /\ w_exh (snd r) = [false; false].
+Proof. vm_compute. split; reflexivity. Qed.
+
+(* ================================================================== *)
+Print Assumptions w_next_loop_spec.
+Print Assumptions w_next_spec.
+Print Assumptions hist_inv_fresh.
+Print Assumptions hist_inv_step.
+Print Assumptions hist_inv_run.
+Print Assumptions per_source_order_inv.
+Print Assumptions per_source_order_no_restart_inv.
+Print Assumptions per_source_order.
+Print Assumptions per_source_order_no_restart.
+Print Assumptions per_source_order_from_any_state.
+Print Assumptions emitted_items_valid.
+Print Assumptions stop_sticky.
+Print Assumptions stop_forever.
+Print Assumptions all_exhausted_complete_inv.
+Print Assumptions all_exhausted_complete.
+Print Assumptions all_exhausted_no_early_stop_inv.
+Print Assumptions all_exhausted_no_early_stop.
+Print Assumptions all_exhausted_stop_sticky.
+Print Assumptions first_exhausted_exact_inv.
+Print Assumptions first_exhausted_exact.
+Print Assumptions first_exhausted_out_of_range_refuted.
+Print Assumptions cycle_until_all_inv.
+Print Assumptions cycle_until_all.
+Print Assumptions cycle_until_all_out_of_range_refuted.
+Print Assumptions exhausted_source_restarts_from_first.
+Print Assumptions cycle_forever_no_stop.
+Print Assumptions cycle_forever_no_stop_run.
+Print Assumptions cycle_forever_no_stop_fresh.
+Print Assumptions cycle_forever_always_item.
+Print Assumptions cycle_forever_empty_refuted.
+Print Assumptions cycle_forever_out_of_range_refuted.
+Print Assumptions reset_get_state.
+Print Assumptions resume_exact.
+Print Assumptions resume_exact_run.
+Print Assumptions resume_exact_outputs.
+Print Assumptions resume_exact_mid_run.
+Print Assumptions choices_deterministic_window.
+Print Assumptions choices_deterministic.
+Print Assumptions choices_deterministic_run.
+Print Assumptions no_fuel_needed_unless_all_exhausted.
+Print Assumptions progress_all_exhausted.
+Print Assumptions progress_all_exhausted_nsrc.
+Print Assumptions progress_cycle_until_all.
